@@ -370,7 +370,8 @@ func (o *OpenAPI3Importer) buildField(name string, prop *openapi3.SchemaRef) (Fi
 		return f, nil
 	}
 
-	defer o.pushName(name)()
+	// the name stack becomes the name of a nested object's type: keep it a valid Sysl name
+	defer o.pushName(escapeUnsafeSyslChars(name))()
 
 	if isArray && prop.Value.Items.Ref != "" {
 		f.Type = &Array{Items: nameOnlyType(o.typeNameFromSchemaRef(prop.Value.Items))}
